@@ -197,20 +197,23 @@ SRCTIE = {
     "Grenad.SrcTie.C13Src": ("SrcMeta", ["CompressionType", "CompressionType.from_u8", "MAGIC_V1", "MAGIC_V2", "METADATA_V1_SIZE",
                                          "METADATA_V2_SIZE", "FileVersion", "Metadata", "Metadata.read_from", "Metadata.write_into"]),
     "Grenad.SrcTie.WriterBuilder": ("SrcWriterBuilder", ["DEFAULT_BLOCK_SIZE", "MIN_BLOCK_SIZE", "WriterBuilder", "WriterBuilder.default", "WriterBuilder.new",
-                                                         "WriterBuilder.block_size_fn", "WriterBuilder.index_key_interval_fn", "WriterBuilder.index_levels_fn", "CompressionType"]),
+                                                         "WriterBuilder.block_size", "WriterBuilder.index_key_interval", "WriterBuilder.index_levels", "CompressionType"]),
     "Grenad.SrcTie.C05Src": ("SrcIter", ["advance_key"]),
     "Grenad.SrcTie.C10Src": ("SrcMeta", ["CompressionType", "CompressionType.from_u8", "MAGIC_V1", "MAGIC_V2", "METADATA_V1_SIZE",
                                          "METADATA_V2_SIZE", "FileVersion", "Metadata", "Metadata.read_from"]),
     "Grenad.SrcTie.C18Src": ("SrcBlockWriter", ["BlockWriter", "BlockWriter.insert", "varint_encode32"]),
-    "Grenad.SrcTie.BlockCursor": ("SrcBlockCursor", ["Block", "Block.payload", "Block.entry_at", "Block.index_offsets_fn", "BlockCursor", "BlockCursor.current",
+    "Grenad.SrcTie.BlockCursor": ("SrcBlockCursor", ["Block", "Block.payload", "Block.entry_at", "Block.index_offsets", "BlockCursor", "BlockCursor.current",
                                                      "BlockCursor.move_on_first", "BlockCursor.move_on_last", "BlockCursor.move_on_next", "BlockCursor.move_on_prev",
                                                      "BlockCursor.move_on_key_lower_than_or_equal_to", "BlockCursor.move_on_key_greater_than_or_equal_to",
                                                      "varint_decode32", "varint_length_packed", "CompressionType"]),
+    "Grenad.SrcTie.Smoke": ("SrcBlockCursor,SrcBlockWriter", ["BlockCursor.move_on_next", "BlockCursor.move_on_prev", "BlockCursor.move_on_last",
+                                                              "BlockCursor.move_on_key_lower_than_or_equal_to", "BlockCursor.move_on_key_greater_than_or_equal_to",
+                                                              "BlockWriter.insert", "BlockWriter.finish"]),
     "Grenad.SrcTie.BlockWriter": ("SrcBlockWriter", ["BlockWriter", "BlockWriter.reset", "BlockWriter.current_size_estimate",
                                                      "BlockWriter.insert", "BlockWriter.finish", "varint_encode32"]),
 }
 for _p, _mods in {"C14": ["Varint", "Block", "C14Src"], "C13": ["Meta", "C13Src"], "C10": ["Meta", "C10Src"], "C09": ["Meta", "BlockWriter", "Varint", "C13Src"], "C04": ["IterRange"],
-                  "C05": ["IterPrefix", "C05Src"], "C18": ["BlockWriter", "C18Src"], "C15": ["BlockWriter", "WriterBuilder"], "C01": ["BlockWriter", "Varint", "Meta", "Block", "BlockCursor"], "C02": ["BlockCursor"]}.items():
+                  "C05": ["IterPrefix", "C05Src"], "C18": ["BlockWriter", "C18Src"], "C15": ["BlockWriter", "WriterBuilder"], "C01": ["BlockWriter", "Varint", "Meta", "Block", "BlockCursor"], "C02": ["BlockCursor", "Smoke"]}.items():
     PROPS[_p]["srctie"] = ["Grenad.SrcTie." + m for m in _mods]
 
 
